@@ -97,7 +97,7 @@ func (m *c02Model) allowed(id *c02Identity, num int64, ts uint64) (bool, string)
 
 func TestC02_NeverEarly(t *testing.T) {
 	rec := recorder("C02")
-	rec.AddRule("rapid state machine over one Shutter-service keyper (verif-tagged constructor, real trigger decision code, real KeyShareHandler and service middleware behind the trigger channel, real schema on pgfake): 1-3 keyper sets (member / not member, distinct and equal activation blocks), eons {none, pending, failed, succeeded, failed-then-restarted pending|succeeded}, time-registered identities with release times at tau-1 / tau / tau+1 around the generated block times, event-trigger registrations with and without a fired_triggers row, decrypted flags; actions: new block (number, time; non-monotone times allowed), register identity, DKG event (eon row / dkg_result row appears), keys released (real keys handler with the keys of 1-3 identities of one keyper set -> decrypted flags), restart (new Keyper object on the same database). Oracle (safety): every identity of every trigger put on the channel while processing block (N, tau), and of every DecryptionKeyShares message handed to SendMessage, satisfies the statement's release condition in the model; identities of a trigger are strictly increasing; a share message names the keyper set the identity was registered for (judged when that set is the only one activating at its block). non-trivial = a block whose time equals a pending release time, or processed while the identity's set has a failed/pending newest eon, or a restart between registration and release; distinct by history")
+	rec.AddRule("rapid state machine over one Shutter-service keyper (verif-tagged constructor, real trigger decision code, real KeyShareHandler and service middleware behind the trigger channel, real schema on pgfake): 1-3 keyper sets (member / not member, distinct and equal activation blocks), eons {none, pending, failed, succeeded, failed-then-restarted pending|succeeded, succeeded-then-restarted pending|failed|succeeded}, time-registered identities with release times at tau-1 / tau / tau+1 around the generated block times, event-trigger registrations with and without a fired_triggers row, decrypted flags; actions: new block (number, time; non-monotone times allowed), register identity, DKG event (eon row / dkg_result row appears), keys released (real keys handler with the keys of 1-3 identities of one keyper set -> decrypted flags), restart (new Keyper object on the same database). Oracle (safety): every identity of every trigger put on the channel while processing block (N, tau), and of every DecryptionKeyShares message handed to SendMessage, satisfies the statement's release condition in the model; identities of a trigger are strictly increasing; a share message names the keyper set the identity was registered for (judged when that set is the only one activating at its block). non-trivial = a block whose time equals a pending release time, or processed while the identity's set has a failed/pending newest eon, or a restart between registration and release; distinct by history")
 	rec.Assume("pgfake; fired_triggers rows are written by the harness only for logs within the trigger's lifetime (producing them from chain logs is C16's subject)")
 	ctx := context.Background()
 	runRapid(t, N(600, 8000), func(rt *rapid.T) {
@@ -158,6 +158,7 @@ func TestC02_NeverEarly(t *testing.T) {
 			}
 			desc = append(desc, fmt.Sprintf("dkg-result(cfg%d e%d %s)", set.Cfg, e.Eon, e.Status))
 		}
+		restartedAfterSuccess := false
 		dkgEvent := func() {
 			set := model.Sets[int64(rapid.IntRange(1, nsets).Draw(rt, "dkgSet"))]
 			switch {
@@ -167,6 +168,11 @@ func TestC02_NeverEarly(t *testing.T) {
 				finishEon(set, rapid.IntRange(0, 2).Draw(rt, "dkgOK") > 0)
 			case set.Eons[len(set.Eons)-1].Status == "failed":
 				startEon(set) // restart
+			case rapid.IntRange(0, 2).Draw(rt, "restartAfterSuccess") == 0:
+				// shuttermint starts the set's key generation again when the on-chain vote on the result failed,
+				// even though this keyper's own run succeeded: the newest eon of the set is pending again
+				startEon(set)
+				restartedAfterSuccess = true
 			}
 		}
 		idCounter := 0
@@ -378,6 +384,9 @@ func TestC02_NeverEarly(t *testing.T) {
 			rt.Fatalf("inconclusive")
 		}
 		sort.Strings(labels)
+		if restartedAfterSuccess {
+			labels = append(labels, "key-generation-restarted-after-success")
+		}
 		rec.Case(strings.Join(desc, " ; "), nontrivial, dedup(labels)...)
 	})
 }
